@@ -112,6 +112,18 @@ def check_set(run, scratch, g, files, caller, focus, name, model=True, known=Non
         return None
     exp_rows, exp_refs = expected_tables(g)
     got_rows = resolve_rows(io)
+    if len(paths) == 1 and caller is None:
+        # the single-file entry point parse_xml promises the same tables as parse_xml_files on that one file
+        io1 = P.impl_parse_one(paths[0])
+        if "err" in io1:
+            run.violation(case, {"what": "parse_xml raised on a document that parse_xml_files accepts", "impl": io1, "call": "opcua_tools.parse_xml(file)"})
+            return None
+        for what, a, b in (("nodes", resolve_rows(io1), got_rows), ("references", resolve_refs(io1), resolve_refs(io)),
+                           ("lookup / ids", [io1.get("lookup"), io1.get("ids"), io1.get("nrefs")], [io.get("lookup"), io.get("ids"), io.get("nrefs")])):
+            if a != b:
+                run.violation(case, {"what": "parse_xml(file) and parse_xml_files([file]) give different %s" % what,
+                                     "parse_xml": str(a)[:600], "parse_xml_files": str(b)[:600], "call": "opcua_tools.parse_xml(file)"})
+                return None
     # ---- property predicates on the real output
     if "nodes" in focus:
         repeat = {json.dumps(list(k_)): v_ for k_, v_ in g.get("repeat", {}).items()}
